@@ -160,7 +160,14 @@ func sortedMap(m map[string]string) string {
 func checkC10(c c10Case) *evid.Fail {
 	t := mustache.NewMustacheTemplate()
 	var err error
-	if g := guard(func() { err = t.SetTemplate(c.Template) }); g != nil {
+	if g := guard(func() {
+		defaults := map[string]string{}
+		for _, n := range c10Names {
+			defaults[n] = "DEFAULT-" + n
+		}
+		t.SetDefaultVariables(defaults)
+		err = t.SetTemplate(c.Template)
+	}); g != nil {
 		g.Msg = fmt.Sprintf("SetTemplate(%q): %s", c.Template, g.Msg)
 		return g
 	}
@@ -250,10 +257,14 @@ func init() { regReplay("C10", checkC10) }
 // ---------------------------------------------------------------------------------------
 // generator of template trees
 
-var c10Names = []string{"a", "b", "name", "X1", "long_name", "user-id", "é", "n0"}
+// names: ASCII, digits, '-' and '_', Latin-1, and letters whose case mapping changes the UTF-8 length
+var c10Names = []string{"a", "b", "name", "X1", "long_name", "user-id", "é", "n0", "Ⱥb", "ẞx", "İd", "ǅ"}
 
 func genText(t *rapid.T, afterTag bool) string {
 	n := rapid.IntRange(1, 8).Draw(t, "tn")
+	if rapid.IntRange(0, 19).Draw(t, "longtext") == 0 {
+		n = rapid.IntRange(8, 400).Draw(t, "longtn") // long literal text, many lines
+	}
 	var rs []rune
 	for i := 0; i < n; i++ {
 		var r rune
@@ -290,6 +301,9 @@ func genPads(t *rapid.T, n int) []string {
 
 func genNodes(t *rapid.T, depth int, budget *int) []*mnode {
 	n := rapid.IntRange(1, 4).Draw(t, "nn")
+	if rapid.IntRange(0, 24).Draw(t, "manynodes") == 0 {
+		n = rapid.IntRange(4, 24).Draw(t, "nnmany")
+	}
 	var out []*mnode
 	for i := 0; i < n && *budget > 0; i++ {
 		*budget--
@@ -370,9 +384,16 @@ func genMap(t *rapid.T) map[string]string {
 func randomCase(t *rapid.T, s string) string {
 	var sb strings.Builder
 	for _, r := range s {
-		if r < 0x80 && rapid.Bool().Draw(t, "uc") {
+		switch rapid.IntRange(0, 2).Draw(t, "uc") {
+		case 0:
 			sb.WriteString(strings.ToUpper(string(r)))
-		} else {
+		case 1:
+			if r >= 0x80 {
+				sb.WriteString(strings.ToLower(string(r)))
+			} else {
+				sb.WriteRune(r)
+			}
+		default:
 			sb.WriteRune(r)
 		}
 	}
@@ -381,6 +402,9 @@ func randomCase(t *rapid.T, s string) string {
 
 func genValueText(t *rapid.T) string {
 	n := rapid.IntRange(1, 8).Draw(t, "vn")
+	if rapid.IntRange(0, 19).Draw(t, "longval") == 0 {
+		n = rapid.IntRange(8, 300).Draw(t, "longvn")
+	}
 	var sb strings.Builder
 	for i := 0; i < n; i++ {
 		switch rapid.IntRange(0, 3).Draw(t, "vk") {
@@ -409,6 +433,7 @@ func TestC10_Rapid(t *testing.T) {
 		for i := 0; i < 3; i++ {
 			c.Maps = append(c.Maps, genMap(rt))
 		}
+		c.Maps = append(c.Maps, map[string]string{}) // an explicit, empty, non-nil map
 		nt := hasKind(tree, "sec") || hasKind(tree, "inv") || (hasKind(tree, "esc") && mEscapeDiffers(c.Maps[0]))
 		labels := []string{fmt.Sprintf("nesting:%d", mDepth(tree))}
 		for _, k := range []string{"text", "var", "esc", "comment", "sec", "inv"} {
